@@ -155,6 +155,15 @@ func runOne(t *testing.T, wl *Workload, cfg string, seed uint64, replay map[stri
 				buf := make([]byte, 1<<21)
 				n := runtime.Stack(buf, os.Getenv("VERIF_ALLSTACKS") != "")
 				out.Infra = "panic outside tasks: " + msg + "\n" + string(buf[:n])
+				if cur != nil && strings.Contains(msg, "all goroutines in bubble are blocked") && len(cur.LockWaitSites()) > 0 {
+					// every goroutine is blocked and some wait on (simulated) locks: a deadlock of the system under test
+					out.Infra = ""
+					out.Viol = append(out.Viol, deadlockViolation(parseCfg(cfg)["prop"], wl.Name, cur.LockWaitSites(), cur.LockWaiters()))
+					out.Tape = cur.T.Recorded()
+					out.Digest = cur.Digest()
+					out.NonTrivial = true
+					return
+				}
 				if cur != nil {
 					out.Infra += "\nparked: " + strings.Join(cur.ParkedSites(), "; ")
 					if d := os.Getenv("VERIF_DUMP"); d != "" {
@@ -210,6 +219,42 @@ func runOne(t *testing.T, wl *Workload, cfg string, seed uint64, replay map[stri
 		})
 	}()
 	return
+}
+
+var defaultProp = map[string]string{"queue": "C05", "monitor": "C01", "opsim": "C03", "queueset": "C03"}
+
+func deadlockViolation(prop, wlName string, sites, waiters []string) Violation {
+	if prop == "" {
+		prop = defaultProp[wlName]
+	}
+	var files []string
+	for _, s := range sites {
+		f := s
+		if i := strings.LastIndex(f, "/"); i >= 0 {
+			f = f[i+1:]
+		}
+		if i := strings.Index(f, ":"); i >= 0 {
+			f = f[:i]
+		}
+		dup := false
+		for _, x := range files {
+			if x == f {
+				dup = true
+			}
+		}
+		if !dup {
+			files = append(files, f)
+		}
+	}
+	return Violation{Prop: prop, Clause: "DEADLOCK", Sig: strings.Join(files, "+"), Detail: "simulated deadlock, tasks waiting on locks for ever: " + strings.Join(waiters, "; ")}
+}
+
+// lockStarvation reports tasks that have been waiting on a simulated lock for a long simulated time
+// (a deadlock that the bubble does not notice because unrelated timers keep firing).
+func lockStarvation(e *Env, prop string) {
+	if sites := e.S.LockBlocked(60 * time.Second); len(sites) > 0 {
+		e.Out.Viol = append(e.Out.Viol, deadlockViolation(prop, "", sites, e.S.LockWaiters()))
+	}
 }
 
 // teardown runs f as a scheduled task and keeps the scheduler going until it is done.
